@@ -31,8 +31,9 @@ def main():
     r = sh(["git", "-C", "/repo", "worktree", "add", "--detach", WT, "HEAD"])
     assert r.returncode == 0, r.stdout
     try:
-        for pid in ids:
-            base = "/tmp/wt/%s/seeded_out" % pid
+        for wid in ids:
+            pid, rnd = wid[:3], wid[3:]      # "C01b": second-round worktree of property C01
+            base = "/tmp/wt/%s/seeded_out" % wid
             for m in sorted(os.listdir(base)) if os.path.isdir(base) else []:
                 d = os.path.join(base, m)
                 try:
@@ -62,7 +63,7 @@ def main():
                     print("    with:", with_txt[-300:].replace("\n", " | "))
                     print("    without:", without_txt[-300:].replace("\n", " | "))
                     continue
-                out = os.path.join(VERIF, "seeded", "%s-%s" % (pid, m))
+                out = os.path.join(VERIF, "seeded", "%s-%s%s" % (pid, rnd, m))
                 os.makedirs(out, exist_ok=True)
                 shutil.copy(os.path.join(d, "patch.diff"), os.path.join(out, "patch.diff"))
                 shutil.copy(os.path.join(d, "demo.rs"), os.path.join(out, "demo.rs"))
